@@ -104,7 +104,8 @@ RecvOK(s, e, sz, min, res) ==
        \/ res = ERR /\ x.rst
 AfterRecv(s, e, sz, min, res) ==
   IF res > 0 THEN [s EXCEPT !.ep[e].rcvd = @ + res]
-  ELSE IF res = 0 /\ s.ep[e].open /\ ~SzZero(sz) /\ RecvEof(s, e, min)
+  ELSE IF res = 0 /\ s.ep[e].open /\ ~SzZero(sz) /\ (RecvEof(s, e, min) \/ (s.ep[e].rst /\ s.ep[Peer(e)].wr))
+       \* the end of the stream (after a reset: what was outstanding is lost)
        THEN [s EXCEPT !.ep[e].rcvd = s.ep[Peer(e)].sent, !.ep[e].eof = TRUE]
   ELSE s
 
